@@ -32,6 +32,36 @@ def sh(cmd, cwd=None, env=None, timeout=3600):
     return p.returncode, p.stdout
 
 
+def recheck(name, src, checks, tier):
+    """Re-runs checks against an already confirmed seeded change (after a
+    check was strengthened) and merges the results into its meta.json."""
+    wt = "/tmp/sv-%s" % name
+    work = "/var/tmp/qverif-seed-%s" % name
+    sh(["git", "-C", "/repo", "worktree", "remove", "--force", wt])
+    rc, out = sh(["git", "-C", "/repo", "worktree", "add", "--detach", wt, "HEAD"])
+    if rc != 0:
+        print(out)
+        sys.exit(2)
+    dst = os.path.join(VERIF, "seeded", name)
+    meta = json.load(open(os.path.join(dst, "meta.json")))
+    try:
+        rc, out = sh(["git", "apply", os.path.join(src, "patch.diff")], cwd=wt)
+        if rc != 0:
+            print("patch does not apply:\n" + out)
+            sys.exit(2)
+        for cid in checks:
+            rc, out = sh([os.path.join(VERIF, "check"), cid, tier], cwd=VERIF, env={"QVERIF_REPO": wt, "QVERIF_WORK": work})
+            lines = [l for l in out.splitlines() if l.startswith("VIOLATION") or l.startswith("KNOWN-FINDING") or l.startswith("MACHINERY")]
+            meta["lead_verification"].setdefault("checks", {})[cid] = {"tier": tier, "exit": rc, "lines": [l.replace(work, "$WORK")[:300] for l in lines[:4]]}
+            print("check %s %s: exit %d %s" % (cid, tier, rc, "(DETECTED)" if rc == 1 else ""))
+            if rc not in (0, 1):
+                print(out[-1500:])
+    finally:
+        sh(["git", "-C", "/repo", "worktree", "remove", "--force", wt])
+        shutil.rmtree(work, ignore_errors=True)
+    json.dump(meta, open(os.path.join(dst, "meta.json"), "w"), indent=1)
+
+
 def main():
     args = sys.argv[1:]
     tier = "quick"
@@ -39,7 +69,13 @@ def main():
         i = args.index("--tier")
         tier = args[i + 1]
         del args[i:i + 2]
+    checks_only = "--checks-only" in args
+    if checks_only:
+        args.remove("--checks-only")
     name, src, checks = args[0], args[1], args[2:]
+    if checks_only:
+        recheck(name, src, checks, tier)
+        return
     wt = "/tmp/sv-%s" % name
     work = "/var/tmp/qverif-seed-%s" % name
     sh(["git", "-C", "/repo", "worktree", "remove", "--force", wt])
